@@ -160,7 +160,8 @@ class Pipeline:
         self.geo = geo
         f = index.func(OBS, 'from_visibility')
         self.func = f
-        self.walk = walk_function(f.node)
+        from .view import view
+        self.node, self.walk, _ = view(index, f)
         ps = f.params()
         self.state = ps[0].arg
         self.ren = {self.state: 'S'}
